@@ -34,7 +34,10 @@ SEGS = ['a', 'a?b', '#', '%', '%41', 'a b', 'a;b=c', 'a&b=c', u'\xe9', '.', '..'
 SEGS2 = ['a', 'a?b', '%41']
 QUERIES = ['', 'x=1', 'x=%3F&y=a+b', u'\xe9=1'.encode('utf-8').decode('latin-1'), u'\xe9=1', 'a=%C3%A9&&b']
 ALL_METHODS = ['GET', 'HEAD', 'POST', 'PUT', 'DELETE', 'OPTIONS', 'TRACE', 'CONNECT', 'PATCH']
-SHAPES = ['static', 'single', 'multi', 'typed']
+SHAPES = ['static', 'single', 'multi', 'typed', 'dotted']
+# dotted: a literal segment containing a regular-expression metacharacter.  Whether '/x/v1-0' reaches the route
+# '/x/v1.0' is outside C05's quantifier (observation O1: literals are not escaped); C07 only asks that *if* it reaches
+# the route the redirect names the canonicalised request path - so for such a path both readings are admissible
 DEFECTS = ['canonical', 'no-trailing', 'double-inside', 'double-last', 'leading-double', 'triple-trailing',
            'triple-inside']
 
@@ -45,7 +48,7 @@ def deadline_passed():
 
 
 def pattern_for(shape, branch):
-    base = {'static': '/x', 'single': '/x/<a>', 'multi': '/x/<a+>', 'typed': '/n/<k:int>/t'}[shape]
+    base = {'static': '/x', 'single': '/x/<a>', 'multi': '/x/<a+>', 'typed': '/n/<k:int>/t', 'dotted': '/x/v1.0'}[shape]
     return base + ('/' if branch else '')
 
 
@@ -56,6 +59,8 @@ def seg_tuples(shape, tier):
         return [['x', s] for s in SEGS]
     if shape == 'typed':
         return [['n', '7', 't'], ['n', '-3', 't']]
+    if shape == 'dotted':
+        return [['x', 'v1.0'], ['x', 'v1-0']]
     out = [['x', s] for s in SEGS]
     out += [['x', s, t] for s in SEGS for t in SEGS2]
     return out
@@ -110,7 +115,7 @@ class Harness(object):
         def ep_k(k):
             seen.append({'k': k})
             return Response(json.dumps({'k': k}))
-        self.eps = {'static': ep_static, 'single': ep_a, 'multi': ep_a, 'typed': ep_k}
+        self.eps = {'static': ep_static, 'single': ep_a, 'multi': ep_a, 'typed': ep_k, 'dotted': ep_static}
 
     def build(self, cfg):
         from clastic import Application, Route, SubApplication
@@ -148,20 +153,37 @@ def qs_pairs(q):
     return out
 
 
-def expected(cfg, prefix, raw_path, method):
+def expected(cfg, prefix, raw_path, method, literal=None):
     shape, branch, mode, placement, methods = cfg
-    pat = prefix + pattern_for(shape, branch)
+    pat = prefix + (pattern_for(shape, branch) if literal is None else '/x/' + literal + ('/' if branch else ''))
     eff = '/' + raw_path.lstrip('/')
     table = [{'pattern': pat, 'methods': methods, 'behaviour': 'answer'}]
     return D.dispatch(table, mode, eff, method), eff
 
 
-def check_request(acc, h, app, cfg, prefix, segs, defect, query, method, sigkey, script_name=''):
+def check_request(acc, h, app, cfg, prefix, segs, defect, query, method, sigkey, script_name='', literal=None):
     shape, branch, mode, placement, methods = cfg
+    if shape == 'dotted' and segs[-1] != 'v1.0' and literal is None:
+        # admissible: the path does not reach the route at all, or it is treated like a path of the route
+        a1 = common.Acc()
+        check_request(a1, h, app, cfg, prefix, segs, defect, query, method, sigkey, script_name, literal='v1.0')
+        if a1.violations:
+            a2 = common.Acc()
+            check_request(a2, h, app, cfg, prefix, segs, defect, query, method, sigkey, script_name, literal=segs[-1])
+            a1 = a2 if a2.violations else a1
+            if a2.violations:
+                for v in a2.violations:
+                    acc.violation(v['sig'], v['desc'], v['case'])
+        acc.evaluated += 1
+        acc.transitions += a1.transitions
+        acc.validated += 1
+        for k, n in a1.outcomes.items():
+            acc.outcome(k, n)
+        return
     raw_path = prefix + render_path(segs, defect) if prefix else render_path(segs, defect)
     if prefix and defect == 'leading-double':
         raw_path = '/' + prefix + render_path(segs, 'canonical')
-    exp, eff = expected(cfg, prefix, raw_path, method)
+    exp, eff = expected(cfg, prefix, raw_path, method, literal)
     case = {'cfg': list(cfg), 'segs': segs, 'defect': defect, 'query': query, 'method': method, 'script_name': script_name}
     del h.seen[:]
     env0 = wsgi.make_environ(raw_path, method, query=query)
@@ -223,7 +245,7 @@ def check_request(acc, h, app, cfg, prefix, segs, defect, query, method, sigkey,
         env['SCRIPT_NAME'] = script_name
         res2 = wsgi.call(app, None, environ=env)
         acc.transitions += 1
-        exp2, _ = expected(cfg, prefix, canon, method)
+        exp2, _ = expected(cfg, prefix, canon, method, literal)
         if res2.code in (301, 302, 303, 307, 308):
             bad('second-redirect', 'following the Location %r yields another redirect to %r' % (loc, res2.header('Location')))
             return
